@@ -12,7 +12,7 @@ import (
 func init() {
 	register("C12", &ruleSet{
 		run:    runC12,
-		floors: map[string]int{"O1": 1, "O2": 3, "O3": 2, "O4": 2},
+		floors: map[string]int{"O1": 1, "O2": 4, "O3": 4, "O4": 2},
 		explain: "Decides structurally for the queue limiter: (O1) bound: the enqueue is dominated by the false edge of 'backlog length >= configured maximum' (comparator " +
 			"direction; the maximum derives from the configuration after defaulting), the length read and the enqueue are one exclusive critical section of the limiter mutex, " +
 			"and the refusal edge returns at once without any blocking operation; (O2) membership typestate: after the enqueue every path to return has the caller's element " +
@@ -31,6 +31,42 @@ func runC12(p *Prog, l *Ledger) {
 	l.Rule("O4", "a waiter leaves the backlog only by its own give-up or together with the capacity handed to it (the C10/O5 evict-with-token rule on the same tree): nothing else removes a caller that is still blocked")
 	l.NotCovered = []string{"instantaneous numeric equality 'reported size = number of blocked callers' in a concurrent history (the structural clauses are its necessary conditions)"}
 	importObligations(p, l, "C10", "O4", func(o *Obligation) bool { return o.Rule == "O5" && strings.Contains(o.Key, "evict-with-token") })
+	// the gauges are fed through core's supplier wrappers, which must hand every reading through (C20/O3)
+	importObligations(p, l, "C20", "O3", func(o *Obligation) bool { return o.Rule == "O3" && strings.HasSuffix(o.Key, "/passes-through") })
+	// every enqueue inserts a holder of its own: an element that comes out of a pool / free list can be in the hands of
+	// two callers at once (a second eviction of the same element recycles it twice), and then one caller's place in line
+	// delivers to the other
+	{
+		var bad []string
+		n := 0
+		for _, f := range p.Funcs {
+			if !p.InPkg(f, "limiter") {
+				continue
+			}
+			allInstrs(f, func(ins ssa.Instruction) {
+				c := p.CallOf(ins)
+				if c == nil || !c.Is("(*container/list.List).PushFront", "(*container/list.List).PushBack") || len(c.Args) != 1 {
+					return
+				}
+				n++
+				v := strip(c.Args[0], false)
+				if mi, ok := v.(*ssa.MakeInterface); ok {
+					v = strip(mi.X, false)
+				}
+				fresh := false
+				switch x := v.(type) {
+				case *ssa.Alloc:
+					fresh = true
+				case *ssa.Call:
+					fresh = p.returnsFresh(x.Call.StaticCallee(), 2)
+				}
+				if !fresh {
+					bad = append(bad, fmt.Sprintf("%s: the element put into the backlog is not allocated for this caller (%s)", p.At(ins), valueString(v)))
+				}
+			})
+		}
+		l.Check(len(bad) == 0 && n > 0, "O2", "limiter/enqueue-fresh-element", "", fmt.Sprintf("%d insertion(s) into the backlog list, each of a freshly allocated element", n), "two callers can share one backlog element", bad...)
+	}
 	// who may take an element out of the backlog list: only an eviction function - the func() a push hands to its own
 	// caller (EvictFunc), which removes that caller's element - and what it calls. A sweep that removes other callers'
 	// elements (pruning "dead" waiters, compaction) takes out callers that are still blocked.
